@@ -120,6 +120,29 @@ pub fn gen_case(rng: &mut Rng, role_n: u64, ver: u64, bias: u64, abuse: bool, st
     }
 }
 
+/// replay: header (contract role idmax idw version) and explicit ops
+pub fn replay_case(hdr: &[u64], ops: &[Op]) -> String {
+    fn go<R: role::RoleType>(hdr: &[u64], ops: &[Op]) -> String {
+        let version = match hdr[4] {
+            4 => Version::V3_1_1,
+            5 => Version::V5_0,
+            _ => Version::Undetermined,
+        };
+        let mut st = CaseStats::new();
+        let mut run = Runner::<R>::new(version, hdr[1], hdr[4]);
+        run.out.insert(0, hdr[0]);
+        for o in ops {
+            run.apply(o, &mut st);
+        }
+        run.line()
+    }
+    match hdr[1] {
+        0 => go::<role::Client>(hdr, ops),
+        1 => go::<role::Server>(hdr, ops),
+        _ => go::<role::Any>(hdr, ops),
+    }
+}
+
 fn drive<R: role::RoleType>(rng: &mut Rng, role_n: u64, ver: u64, bias: u64, abuse: bool, stats: &mut CaseStats) -> (String, u64) {
     let version = match ver {
         4 => Version::V3_1_1,
